@@ -11,6 +11,8 @@ Sub-checks
   widths    every tree of groups/definitions with every assignment of 1, 2 or 4 blanks to the children of each parent
   layout    every way of adding <= 2 decorations (blank line, line of blanks, comment-only line at three indentations,
             trailing comment with four texts) to every small tree; the result must not change
+  comments  every literal form (and the one-column tables) x every shape of trailing comment (quote characters of both
+            kinds followed by the end of the line / one word / several words, apostrophes, empty comment, '#', '=')
   literals  every literal form of the alphabet (bool / int / float spellings / strings / none / inline, quoted and
             block arrays / tables) at root, below a group and behind a dotted name, with sentinel nodes around it
   pairs     (thorough) every ordered pair of a representative subset of the literals in one program
@@ -132,7 +134,18 @@ INSERTS = [
     ("C3", dict(k="comment", indent=3, text="a = 1 # x")),
     ("C9", dict(k="comment", indent=9, text="it's \"q\"")),
 ]
-TRAILS = [("T1", "note"), ("T2", "it's"), ("T3", 'say "hi"'), ("T4", "x = 1 # y")]
+TRAILS = [("T1", "note"), ("T2", "it's"), ("T3", 'say "hi"'), ("T4", "x = 1 # y"),
+          ("T5", "key of the table 'users'"), ("T6", 'the "cities" table')]
+
+# trailing comments of the `comments` sub-check: every shape of quote characters inside a comment (quote followed by
+# the end of the line, by one more word, by several words, at the start; apostrophes; both quote characters; empty)
+COMMENT_TEXTS = [
+    "note", "", "x = 1 # y",
+    "it's", "don't touch", "the users' names", "key of the table 'users'", "the 'users' table", "'quoted' first",
+    "length in feet 5'", "lengths given in 'cm'",
+    'say "hi"', 'key of the table "cities"', 'the "cities" table', '"quoted" first', 'size in inch 5"',
+    "'a' and \"b\"", "\"a\" and 'b'",
+]
 
 
 def single_decorations(n):
@@ -248,7 +261,10 @@ def scalar_literals():
             ('""', "", "empty-string"), ("'  padded  '", "  padded  ", "single"),
             ("a-b_c.d", "a-b_c.d", "bare"), ("42", "42", "bare"), ("true", "true", "bare"),
             ("'x=y'", "x=y", "single"), ("x=y", "x=y", "bare"), ("'Dvořák'", "Dvořák", "single"),
-            ("'a'", "a", "single"), ('"b"', "b", "double"), ("0", "0", "bare")]
+            ("'a'", "a", "single"), ('"b"', "b", "double"), ("0", "0", "bare"),
+            # the quote character of the value inside the value (the DIP exporter writes this form)
+            ('"say "hi" now"', 'say "hi" now', "same-quote-inside"), ("'say 'hi' now'", "say 'hi' now", "same-quote-inside"),
+            ('""quoted""', '"quoted"', "same-quote-inside"), ("''quoted''", "'quoted'", "same-quote-inside")]
     for t, v, tag in strs:
         out.append((("str", tag), "str", None, G.lit(t, v), None))
     out.append((("str", "none"), "str", None, G.lit("none", None), None))
@@ -353,6 +369,28 @@ def literal_program(entry):
             dict(k="def", d=0, name="z", type="int", dims=None, lit=G.lit("9", 9), unit=None)]
 
 
+def comment_program(entry, text):
+    """the literal at the three positions, every line of the program carrying the trailing comment `text`"""
+    prog = table_program(entry) if isinstance(entry[1], tuple) else literal_program(entry)
+    for ln in prog:
+        ln["tc"] = text
+    return prog
+
+
+def comment_tables():
+    """tables of the `comments` sub-check: the one-column tables"""
+    return [i for i, e in enumerate(table_literals()) if len(e[1]) == 1]
+
+
+def comment_tags(entry, text):
+    tags = set(entry[0]) | {"literal", "trailing-comment", "comments"}
+    if "'" in text or '"' in text:
+        tags.add("comment-has-quote")
+        if not isinstance(entry[1], tuple) and (entry[3]["text"] or "")[:1] in ("'", '"'):
+            tags.add("after-quoted-value")
+    return tags
+
+
 def table_program(entry):
     tags, combo, nrows = entry
     cols = [COLS[c] for c in combo]
@@ -425,6 +463,10 @@ def make_case(desc):
     if sub == "tables":
         e = table_literals()[desc["tab"]]
         return table_program(e), (2, 2, 2, 2), None, set(e[0]) | {"literal"}
+    if sub == "comments":
+        e = literals()[desc["lit"]] if "lit" in desc else table_literals()[desc["tab"]]
+        text = COMMENT_TEXTS[desc["text"]]
+        return comment_program(e, text), (2, 2, 2, 2), None, comment_tags(e, text)
     if sub == "pairs":
         ea, eb = literals()[desc["a"]], literals()[desc["b"]]
         return pair_program(desc["a"], desc["b"]), (2, 2, 2, 2), None, set(ea[0]) | set(eb[0]) | {"literal", "pair"}
@@ -548,7 +590,7 @@ def _tree_descs(tier, k, nshard):
 
 def plan(tier, seed):
     shards = [("tree", tier, k, NSHARD) for k in range(NSHARD)]
-    shards += [("lit", tier, k, 8) for k in range(8)]
+    shards += [("lit", tier, k, 16) for k in range(16)]
     if BOUNDS[tier]["pairs"]:
         shards += [("pair", tier, k, 16) for k in range(16)]
     return shards
@@ -573,6 +615,15 @@ def run_shard(desc):
         for i in range(len(table_literals())):
             if i % n == k:
                 run_case(dict(sub="tables", tab=i), sh, seen)
+        # every literal form x every comment shape
+        for i in range(len(literals())):
+            if i % n == k:
+                for t in range(len(COMMENT_TEXTS)):
+                    run_case(dict(sub="comments", lit=i, text=t), sh, seen)
+        for j, i in enumerate(comment_tables()):
+            if j % n == k:
+                for t in range(len(COMMENT_TEXTS)):
+                    run_case(dict(sub="comments", tab=i, text=t), sh, seen)
     elif kind == "pair":
         sub = pair_subset()
         for x, a in enumerate(sub):
@@ -593,7 +644,7 @@ def replay(rec):
 
 def finish(total, tier, seed):
     h = total.hist
-    need = ["sub=trees", "sub=widths", "sub=layout", "sub=literals", "sub=tables", "feature=dedent>=2",
+    need = ["sub=trees", "sub=widths", "sub=layout", "sub=literals", "sub=tables", "sub=comments", "feature=dedent>=2",
             "feature=dotted-name", "feature=blank-line", "feature=comment-line", "feature=trailing-comment",
             "feature=table", "feature=array", "feature=block"]
     missing = [k for k in need if not h.get(k)]
@@ -605,6 +656,7 @@ def finish(total, tier, seed):
                             widths_lines=b["widths_alt"], layout_two_decorations_lines=b["layout2"],
                             layout_one_decoration_lines=b["layout1_plain"]),
                 literal_alphabet=len(literals()), table_alphabet=len(table_literals()),
+                comment_shapes=len(COMMENT_TEXTS),
                 pair_alphabet=len(pair_subset()) if b["pairs"] else 0, caps_hit=[])
 
 MANIFEST = dict(
@@ -616,8 +668,9 @@ MANIFEST = dict(
          "lines; every way of adding <= 2 decorations (blank line, line of blanks, comment line at 3 indentations, "
          "trailing comment with 4 texts) to trees of <= 2 (3) lines and 1 decoration up to 4 (5) lines; ~300 literal "
          "forms (all type spellings, number notations, 64-bit integers at 2**53+-1, 2**63-1, 2**64-1 compared as exact "
-         "Python ints, strings, none, inline / quoted / block arrays with 5 dimension "
-         "notations) and 468 tables at root, below a group and behind a dotted name (quick ~1.1e5 programs, thorough "
+         "Python ints, strings incl. their own quote character inside, none, inline / quoted / block arrays with 5 dimension "
+         "notations) and 468 tables at root, below a group and behind a dotted name; every literal form x 18 shapes of trailing "
+         "comment (quotes of both kinds at every position in the comment) (quick ~1.4e5 programs, thorough "
          "~1.7e6). Coverage statement: paths, order, type, precision, sign, unit and value equal what was written for "
          "every program in these bounds.",
     note="Reference never parses text (interprets the AST); a per-case self-check ties the AST to the statement's "
